@@ -18,12 +18,20 @@ bystander instances.  After EVERY step the invariants of the statement are evalu
                                 flag of every class-level and instance-level Parameter is as declared
   C14/name/constant             `name` is constant: flag set, rebinding raises TypeError
 
+Falsy-default dimension: A also declares constants whose default is None / 0 / '' / [] / False / an
+empty List (``zn z0 zs zl zf zL``; never passed to a constructor).  They are part of every snapshot (target
+and bystanders), and the operations ``clsz-A / clsz-B / clsz-own`` (class-level set of all of them to fresh
+truthy objects on the declaring class / the subclass / the target's class) and ``clsz0-own`` (class-level set
+back to falsy values) put them under the class-level clause: an existing instance keeps the object it held.
+
 The oracle is adaptive where the statement permits either outcome (an assignment inside edit_constant
 or at class level may succeed or be refused), so only what the statement demands is checked.  Histories
 are prefix-closed: a failure is reported with the shortest prefix that exhibits it.
 """
 import itertools
 import logging
+
+FALSY = ('zn', 'z0', 'zs', 'zl', 'zf', 'zL')
 import warnings
 from concurrent.futures import ProcessPoolExecutor
 
@@ -44,6 +52,9 @@ class Obj:
     def __repr__(self): return 'Obj(%r)' % self.label
 
 DECLARED = {'c': (True, False), 'n': (True, False), 'r': (True, True), 'name': (True, False), 'v': (False, False)}
+FALSY = ('zn', 'z0', 'zs', 'zl', 'zf', 'zL')       # constants with a falsy default
+for _z in FALSY:
+    DECLARED[_z] = (True, False)
 
 def cls_param(C, n):
     for K in C.__mro__:
@@ -60,6 +71,12 @@ class World:
             r = param.Parameter(default=R0, readonly=True)
             n = param.Number(default=1.5, bounds=(0, 10), constant=True)
             v = param.Number(default=1)
+            zn = param.Parameter(default=None, constant=True)
+            z0 = param.Integer(default=0, constant=True)
+            zs = param.String(default='', constant=True)
+            zl = param.Parameter(default=[], constant=True)
+            zf = param.Boolean(default=False, constant=True)
+            zL = param.List(default=[], constant=True)
         class B(A):
             pass
         class Q(A):
@@ -80,7 +97,19 @@ class World:
         return Obj('f%d' % self.n)
 
     def snap(self, x):
-        return {'c': x.c, 'r': x.r, 'n': x.n, 'name': x.name}
+        d = {'c': x.c, 'r': x.r, 'n': x.n, 'name': x.name}
+        for z in FALSY:
+            d[z] = getattr(x, z)
+        return d
+
+    def set_falsy(self, K, truthy):
+        """class-level set of every falsy-default constant of class K (allowed by the statement)"""
+        self.n += 1
+        vals = ({'zn': Obj('z%d' % self.n), 'z0': 1000 + self.n, 'zs': 's%d' % self.n, 'zl': [self.n], 'zf': True,
+                 'zL': [self.n]} if truthy else
+                {'zn': None, 'z0': 0, 'zs': '', 'zl': [], 'zf': False, 'zL': []})
+        for z in FALSY:
+            self.attempt(lambda: setattr(K, z, vals[z]))
 
     def sync(self):
         self.held = self.snap(self.o)
@@ -90,8 +119,7 @@ class World:
         o = self.o
         for k, v in self.snap(o).items():
             if v is not self.held[k] and not (k == 'name' and v == self.held[k]):
-                clause = {'c': 'C14/constant/guard', 'n': 'C14/constant/guard', 'r': 'C14/readonly/guard',
-                          'name': 'C14/name/constant'}[k]
+                clause = {'r': 'C14/readonly/guard', 'name': 'C14/name/constant'}.get(k, 'C14/constant/guard')
                 self.fail.append((clause, 'held-object-changed:' + k, '%s: %r -> %r' % (k, self.held[k], v)))
                 self.held[k] = v
         for x in (self.e, self.eb):
@@ -205,6 +233,14 @@ def op(w, name):
         w.attempt(lambda: setattr(type(o), 'c', w.fresh()))
     elif name == 'cls-n':
         w.attempt(lambda: setattr(type(o), 'n', 7.5))
+    elif name == 'clsz-A':
+        w.set_falsy(w.A, True)
+    elif name == 'clsz-B':
+        w.set_falsy(w.B, True)
+    elif name == 'clsz-own':
+        w.set_falsy(type(o), True)
+    elif name == 'clsz0-own':
+        w.set_falsy(type(o), False)
     elif name == 'read-param':
         o.param['c']; o.param['n']; o.param['r']; o.param['name']; w.e.param['c']
     elif name in ('edit', 'edit-read', 'edit-nested', 'edit-raise', 'edit-nested-raise', 'edit-ro', 'edit-update'):
@@ -281,9 +317,9 @@ def run_history(ctor_kind, ops):
 
 CTORS = ["A()", "A(c=X)", "B()", "B(c=X)", "Q()", "Q(n='bad')", "Q(zz=1)"]
 OPS = ["set-same", "upd-same", "set-diff", "set-equal", "upd-diff", "num-diff", "num-bad", "cls-A", "cls-B",
-       "cls-own", "cls-n", "read-param", "edit", "edit-update", "edit-read", "edit-nested", "edit-raise",
+       "cls-own", "cls-n", "clsz-A", "clsz-B", "clsz-own", "clsz0-own", "read-param", "edit", "edit-update", "edit-read", "edit-nested", "edit-raise",
        "edit-nested-raise", "edit-ro", "ro-inst", "ro-upd", "ro-cls", "name", "deepcopy", "new-inst"]
-CORE_OPS = ["set-diff", "set-equal", "cls-own", "read-param", "edit", "edit-nested", "edit-raise",
+CORE_OPS = ["set-diff", "set-equal", "cls-own", "clsz-own", "read-param", "edit", "edit-nested", "edit-raise",
             "edit-nested-raise", "ro-inst", "deepcopy"]
 CORE_CTORS = ["A()", "B(c=X)", "Q(n='bad')"]
 
@@ -375,7 +411,8 @@ def run(tier, seed):
               "argument, subclass, constructor failing inside a subclass __init__ that catches the error: invalid "
               "value / unknown keyword) x all sequences of %d ops over %d operations (identical / different / "
               "equal-but-distinct object, update, valid and invalid number, class-level set on declaring class / "
-              "subclass / own class, reading obj.param[...] first, edit_constant plain / update / reading inside / "
+              "subclass / own class, class-level set of the constants with a falsy default (None, 0, '', [], False, "
+              "empty List) to truthy values on declaring class / subclass / own class and back to falsy values, reading obj.param[...] first, edit_constant plain / update / reading inside / "
               "nested / raising / nested-raising / with a read-only target, read-only at instance / update / class "
               "level, name, deepcopy, new instance)%s"
               % ("3" if tier == "quick" else "5", len(CTORS), 2 if tier == "quick" else 3, len(OPS),
@@ -402,6 +439,8 @@ def run(tier, seed):
             if major == "held-object-changed" and any(
                     f[0] == step and f[1] == clause and f[2].startswith("not-rejected") for f in fails):
                 continue          # consequence of the missing rejection already recorded for this step
+            if what.split(":")[-1] in FALSY:
+                ctx = "falsy-default"       # (one class for all constructor variants: shortest history wins)
             g = (clause, major, ctx)
             cand = (len(prefix), CTORS.index(c), tuple(OPS.index(x) for x in prefix))
             cur = groups.get(g)
@@ -414,7 +453,7 @@ def run(tier, seed):
         B.checked(cl, nsteps)
     for g in sorted(groups):
         cand, c, prefix, detail, count, what = groups[g]
-        clause, major, ctx = g
+        clause, major, ctx = g[:3]
         witness = "ctx=%s what=%s ctor=%s ops=[%s]" % (ctx, what, c, ",".join(prefix))
         B.violation(clause=clause, witness=witness,
                     detail="%d (history, step) occurrences; shortest history shown. %s" % (count, detail),
